@@ -1,8 +1,9 @@
 // g++ -std=c++17 -O1 -I. demo.cpp -o demo
-// C16 (candidate finding, found after the repair of F41): solver::skyline_lu on an EMPTY (0 x 0) matrix: factorize()
+// C16 / F42 (found after the repair of F41): solver::skyline_lu on an EMPTY (0 x 0) matrix: factorize()
 // (skyline_lu.hpp:248) evaluates `precondition(!math::is_zero(D[0]))` and `D[0] = math::inverse(D[0])` on the empty vector D:
 // segmentation fault in a plain build (before a9ce099 the crash in cuthill_mckee::get came first and masked it).
-// Proposed fix: repo_patches/fix_skyline_empty.patch (`if (n == 0) return;` at the top of factorize()).
+// Fix: `if (n == 0) return;` at the top of factorize() (repo_patches/fix_skyline_empty.patch).
+// Lean: Model/SkylineLU.lean factorize has the same early return (C16.skyline_factorize_empty, C16c.skyline_cmk_empty).
 //   mode 2: solver::skyline_lu<double>(A) + operator() on empty vectors   (default ordering; perm(n) is empty)
 //   mode 3: amg<builtin<double>, smoothed_aggregation, spai0>(A)           (an empty system is its own coarsest level -> skyline_lu)
 // Property (C16): the skyline LU coarse solver ... whatever its sparsity pattern (the skyline theorems are stated for n >= 1;
